@@ -291,7 +291,10 @@ Lemma check_redir_list rc hops y :
   check_redir rc (OList [OList hops; y]) =
   (Nat.leb (List.length hops)
            (S (if match rc_follow rc with Some b => b | None => true end
-               then Z.to_nat (match rc_maxred rc with Some z => z | None => 5%Z end) else 0%nat))) &&
+               then Z.to_nat (match rc_maxred rc with
+                              | Some z => z
+                              | None => match rc_defmax rc with Some d => d | None => 5%Z end
+                              end) else 0%nat))) &&
   match hops with
   | [] => true
   | first :: rest =>
